@@ -328,6 +328,8 @@ class FnSpec:
     def make_dict(self, eng, pairs, node):
         if not pairs:
             return EmptyDict()
+        if all(isinstance(k, str) for k, _ in pairs) and all(not _symbolic(v) and not isinstance(v, (ObjVal, Opaque)) for _, v in pairs):
+            return dict(pairs)  # a constant table
         raise OutOfSubset("dict display at line %s" % node.lineno)
 
     def make_set(self, eng, items, node):
@@ -717,6 +719,10 @@ class FnSpec:
             if isinstance(op, ast.NotIn):
                 return (not r) if isinstance(r, bool) else z3.Not(r)
             return r
+        if isinstance(a, Sym) and a.ty == TBool:
+            a = Sym(z3.If(a.term, z3.IntVal(1), z3.IntVal(0)), TInt)  # bool is a subclass of int
+        if isinstance(b, Sym) and b.ty == TBool:
+            b = Sym(z3.If(b.term, z3.IntVal(1), z3.IntVal(0)), TInt)
         if isinstance(a, Sym) and hasattr(a.ty, "as_int"):
             a = a.ty.as_int(eng, a, node)
         if isinstance(b, Sym) and hasattr(b.ty, "as_int"):
